@@ -2,7 +2,7 @@
    Statements only (copied from the lemma libraries); every proof is a bare
    `exact`; see the cited files in coq/proofs for the proofs. *)
 From Coq Require Import List NArith ZArith Bool Arith Sorting.Sorted Sorting.Permutation.
-From D2P Require Import Str Err Xml TableTypes Tables Fmt Merge MergeFacts.
+From D2P Require Import Str Err Xml TableTypes Tables Fmt Merge MergeFacts TablesFacts Walk Collector.
 Import ListNotations.
 
 (* the element tree exposed for editing carries the same characters and content marks, in the same order, as the original part (under: text elements have no content children, one prefix per namespace) *)
@@ -65,3 +65,23 @@ Theorem C06_wf_preserved_partial :
   merge_elems v t = Ok t' -> wf_text t' = true /\ wf_ptag pt t' = true.
 Proof. exact merge_wf_partial. Qed.
 Print Assumptions C06_wf_preserved_partial.
+
+(* tie to the source: _MERGEABLE_TAGS, as it is in /repo today, is exactly run, hyperlink, text, math text *)
+Theorem C06_only_runs_links_text_merge :
+  sort_strs mergeable_tags = sort_strs [tag_RUN; tag_HYPERLINK; tag_TEXT; tag_TEXT_MATH].
+Proof. exact mergeable_is_run_link_text. Qed.
+Print Assumptions C06_only_runs_links_text_merge.
+
+(* paragraphs, tables, rows and cells are never fused *)
+Theorem C06_blocks_never_merge :
+  mem_str tag_PARAGRAPH mergeable_tags = false /\ mem_str tag_TABLE mergeable_tags = false
+  /\ mem_str tag_TABLE_ROW mergeable_tags = false /\ mem_str tag_TABLE_CELL mergeable_tags = false.
+Proof. exact blocks_are_never_merged. Qed.
+Print Assumptions C06_blocks_never_merge.
+
+(* rPr / pPr / sdtPr are not content, so they never separate two pieces of one run *)
+Theorem C06_properties_not_content :
+  mem_str tag_RUN_PROPERTIES content_tags = false /\ mem_str tag_PAR_PROPERTIES content_tags = false
+  /\ mem_str tag_SDT_PROPERTIES content_tags = false.
+Proof. exact properties_are_not_content. Qed.
+Print Assumptions C06_properties_not_content.
